@@ -448,6 +448,32 @@ func main() {
 		} else {
 			fmt.Fprintln(wi, res)
 		}
+		// the premises of the Lean theorem resolveU_sound, decided on both sides
+		wf := true
+		seenP := map[string]bool{}
+		for _, sp := range sorted {
+			for _, e := range sp.provides {
+				if seenP[e] {
+					wf = false
+				}
+				seenP[e] = true
+			}
+			seenR := map[string]bool{}
+			for _, e := range sp.requires {
+				if seenR[e] {
+					wf = false
+				}
+				seenR[e] = true
+			}
+		}
+		fmt.Fprintf(wo, "reswf %s\n", strings.Join(parts, " "))
+		fmt.Fprintln(wi, wf)
+		if wf {
+			stats["resolveU_sound premises hold"]++
+			if res == "ok" {
+				stats["resolveU_sound premises hold and resolve succeeds"]++
+			}
+		}
 		stats[strings.SplitN(res, " ", 3)[0]+" "+strings.TrimPrefix(res, "err ")]++
 	}
 	hv.Stats(stats)
